@@ -213,6 +213,17 @@ class World:
                     m.globals[t] = v
                     if isinstance(v, (list, dict)):
                         self.global_container_ids.add(id(v))
+        for s in m.tree.body:
+            if (isinstance(s, ast.Assign) and len(s.targets) == 1 and isinstance(s.targets[0], ast.Name)
+                    and isinstance(s.value, ast.Call) and isinstance(s.value.func, ast.Attribute)
+                    and s.value.func.attr == "compile" and isinstance(s.value.func.value, ast.Name)
+                    and s.value.func.value.id in ("regex", "re") and s.value.args
+                    and isinstance(s.value.args[0], ast.Constant) and isinstance(s.value.args[0].value, str)):
+                from .tstr import RegexVal
+                try:
+                    m.globals[s.targets[0].id] = RegexVal(s.value.args[0].value, 0, s.value.func.value.id)
+                except Exception:
+                    pass     # a pattern CPython's sre cannot parse (\\p{..}): left undefined -> unsupported on use
         if m.name == "ctparse.time.rules":
             # `from ..types import pod_hours` etc. are handled by ImportFrom; rule-decorated functions
             # are bound to the *wrapper* at run time (see World.rule_wrapper)
@@ -408,6 +419,9 @@ class World:
                     # unbounded digit string: CPython refuses > 4300 digits
                     raise PyRaise("ValueError", "Exceeds the limit (4300 digits) for integer string conversion")
                 return v.mv.ints[v.name]
+            from .tstr import TStr, to_int
+            if isinstance(v, TStr):
+                return to_int(it, v)
             if isinstance(v, FinStr):
                 if all(o.strip().lstrip("+-").isdigit() for o in v.options):
                     vals = [int(o) for o in v.options]
